@@ -77,6 +77,8 @@ def generate(rng, tier):
         unit = rng.choice(UNITS)
         case = {"shape": shape, "unit": unit, "unc": rng.choice([None, "std", "std", "var", "unknown"]),
                 "mask": rng.random() < 0.4, "payload": "dask" if rng.random() < 0.1 else "numpy", "wseed": rng.randrange(10**6)}
+        if rng.random() < 0.2:
+            case["pre"] = True
         r = rng.random()
         if r < 0.12:
             q = gen_operand(rng, shape, unit)
@@ -99,7 +101,7 @@ def generate(rng, tier):
                 if o == "neg":
                     ops.append({"op": o})
                 elif o == "pow":
-                    ops.append({"op": o, "exp": rng.choice([2, -1, 3, 0.5])})
+                    ops.append({"op": o, "exp": rng.choice([2, -1, 3, 0.5, -2, 0, 1])})
                 elif o == "to":
                     cu = unit if unit is not None else ""
                     ops.append({"op": o, "unit": rng.choice(CONV.get(cu, ["s"]) + ["s"])})
@@ -113,6 +115,8 @@ def generate(rng, tier):
 def build(case):
     from ndcube import NDCube
     shape = tuple(case["shape"])
+    if case.get("pre"):
+        shape = (2,) + shape           # built one axis larger and cut down to `shape` by an integer below
     n = int(np.prod(shape))
     data = ((np.arange(n) % 7) - 2.5).reshape(shape) * 0.5 + 0.25       # dyadic, no zeros
     if case["wseed"] % 5 == 0:
@@ -130,6 +134,10 @@ def build(case):
                   mask=(np.arange(n).reshape(shape) % 2 == 0) if case["mask"] else None, meta={"k": 1})
     cube.extra_coords.add("ec", 0, np.arange(shape[0]) * u.m)
     cube.global_coords.add("gc", "custom:gc", 3 * u.kg)
+    if case.get("pre"):
+        # the operand of the arithmetic is itself the result of slicing: its extra coordinate (and the first world
+        # axis) were indexed away and live on as global coordinates, which the result must still report
+        cube, data, unc_arr = cube[1], data[1], unc_arr[1]
     return cube, data, unc_arr
 
 
@@ -267,7 +275,12 @@ def run(case):
             p = [0.5] * sll.pixel_n_dim
             if W.p2w(sll, p) != W.p2w(cll, p):
                 fails.append("the result's wcs reports other coordinates")
-            if list(cur.extra_coords.keys()) != ["ec"] or not np.array_equal(cur.extra_coords._lookup_tables[0][1].table[0], np.arange(case["shape"][0]) * u.m):
+            if case.get("pre"):
+                if list(cur.extra_coords.keys()) != [] or "ec" not in dict(cube.global_coords):
+                    fails.append("pre-sliced cube: the indexed-away extra coordinate is not a global coordinate of the source / reappeared")
+                if list(dict(cur.global_coords)) != list(dict(cube.global_coords)):
+                    fails.append(f"global coords {list(dict(cur.global_coords))} of the result differ from the source's {list(dict(cube.global_coords))}")
+            elif list(cur.extra_coords.keys()) != ["ec"] or not np.array_equal(cur.extra_coords._lookup_tables[0][1].table[0], np.arange(case["shape"][0]) * u.m):
                 fails.append("extra coords were not carried over")
             if dict(cur.global_coords) != dict(cube.global_coords):
                 fails.append("global coords were not carried over")
@@ -324,7 +337,16 @@ def run(case):
                           "unc": None if cur.uncertainty is None else [float(x) for x in np.asarray(cur.uncertainty.array, dtype=float).ravel()]}
     if impl_err:
         res["obs"] = {"err": impl_err, "at": impl_at}
-    modelled = all(o["op"] in ("add", "radd", "sub", "rsub", "mul", "rmul", "div", "neg", "to") for o in case["ops"])
+    # integer powers and value / cube are modelled for the values and the unit (their uncertainty is astropy's
+    # propagation of a power: oracle only); a negative power of a zero is numpy's inf: not sent to the model
+    def in_model(o):
+        if o["op"] == "pow":
+            return float(o["exp"]).is_integer()
+        return o["op"] in ("add", "radd", "sub", "rsub", "mul", "rmul", "div", "rdiv", "neg", "to")
+    modelled = all(in_model(o) for o in case["ops"])
+    if modelled and not impl_err and any(o["op"] in ("pow", "rdiv") for o in case["ops"]) and \
+            not np.all(np.isfinite(np.asarray(C.materialize(cur.data), dtype=float))):
+        modelled = False
     if modelled and not fails:
         ops = []
         for o in case["ops"]:
@@ -333,6 +355,8 @@ def run(case):
                 m["operand"] = model_operand(o["operand"])
             if o["op"] == "to":
                 m["unit"] = unit_m(o["unit"])
+            if o["op"] == "pow":
+                m["exp"] = int(o["exp"])
             ops.append(m)
         res["model_req"] = {"op": "arith", "data": [frac(x) for x in data.ravel()], "unit": unit_m(case["unit"]),
                             "unc": None if case["unc"] is None else {"kind": case["unc"], "arr": [frac(x) for x in unc_arr.ravel()]},
@@ -373,6 +397,8 @@ def compare(case, r, m):
         trim = lambda d: [x for x in d[:len(d) - next((i for i, v in enumerate(reversed(d)) if v), len(d))]]
         if trim(mu["dim"]) != trim(iu["dim"]) or not np.isclose(unfrac(mu["scale"]), unfrac(iu["scale"]), rtol=1e-12):
             return f"unit: implementation {o['unit']} = {iu} vs model {mu}"
+    if any(x["op"] in ("pow", "rdiv") for x in case["ops"]):
+        return None          # the uncertainty of a power is astropy's propagation: not modelled
     if (m["unc"] is None) != (o["unc"] is None):
         return f"uncertainty presence: implementation {o['unc']} vs model {m['unc']}"
     if m["unc"] is not None and not np.allclose([unfrac(x) for x in m["unc"]], o["unc"], rtol=1e-12):
